@@ -3049,6 +3049,37 @@ def arange(*args: Any, **kwargs: Any) -> Array:
 def _compare(x1: ArrayOrScalar, x2: ArrayOrScalar, which: str) -> Array | bool:
     # https://github.com/python/mypy/issues/3186
     from pytato import utils
+
+    # NumPy compares in the promoted type of the operands. Left to themselves,
+    # the operands would undergo C's usual arithmetic conversions in the
+    # generated code: a signed operand next to an unsigned one becomes
+    # unsigned, a 64-bit integer next to a float32 a float32, a float32 next to
+    # a (double) literal a double.
+    operand_dtype = None
+    if not (np.isscalar(x1) and np.isscalar(x2)):
+        operand_dtype = utils.get_common_dtype_of_ary_or_scalars([x1, x2])
+        for x in (x1, x2):
+            if (isinstance(x, int) and not isinstance(x, bool)
+                    and operand_dtype.kind in "iu"
+                    and not (np.iinfo(operand_dtype).min <= x
+                             <= np.iinfo(operand_dtype).max)
+                    and np.min_scalar_type(x).kind in "iu"):
+                # NumPy compares an out-of-range Python integer exactly
+                operand_dtype = np.result_type(operand_dtype,
+                                               np.min_scalar_type(x))
+        if operand_dtype == np.bool_:
+            operand_dtype = None
+        elif operand_dtype.kind in "fc":
+            # in the generated code a Python float is a double literal (next
+            # to a single-precision operand: compared in double), a Python
+            # complex is an unsized constant
+            is_single = operand_dtype.itemsize < (
+                16 if operand_dtype.kind == "c" else 8)
+            x1, x2 = (operand_dtype.type(x)
+                      if (isinstance(x, complex)
+                          or (is_single and isinstance(x, float))) else x
+                      for x in (x1, x2))
+
     # type-ignored because 'broadcast_binary_op' returns Scalar, while
     # '_compare' returns a bool.
     return utils.broadcast_binary_op(
@@ -3057,8 +3088,9 @@ def _compare(x1: ArrayOrScalar, x2: ArrayOrScalar, which: str) -> Array | bool:
                             lambda x, y: np.dtype(np.bool_),
                             tags=_get_default_tags(),
                             non_equality_tags=_get_created_at_tag(stacklevel=2),
-                            cast_to_result_dtype=False,
+                            cast_to_result_dtype=operand_dtype is not None,
                             is_pow=False,
+                            operand_dtype=operand_dtype,
                         )  # type: ignore[return-value]
 
 
